@@ -32,7 +32,7 @@ COMPONENTS = {
 ASSUMPTIONS = ["bitwise comparison with the clean run (NaN == NaN)", "'empty' feature excluded", "CPU only"]
 PROBES = ["online_feed", "offline_vectorised", "offline_stepwise", "feature_single_step", "feature_all_steps",
           "path_dependent_feature", "listed_hedge", "maturity_no_trade", "bs_model", "ww_model", "module_output",
-          "fill_nan", "fill_rand", "fill_huge", "grad_enabled_run"]
+          "fill_nan", "fill_rand", "fill_huge", "grad_enabled_run", "kept_feature_object"]
 FILLS = ["rand", "rand", "huge", "nan", "neg", "zero"]
 SOFT_FILLS = ("nan", "neg", "zero", "huge")
 
@@ -272,11 +272,21 @@ def _execute(program, stats, hist):
             torch.set_grad_enabled(True)
         elif name == "feature":
             from pfhedge.features import get_feature
-            f = get_feature(build_feature(op["feature"], world))
-            if isinstance(f, torch.nn.Module):
-                f.to(next(iter(d.underliers())).spot.dtype)
-            f = f.of(d)
+            import json as _json
             fname = feature_name(op["feature"])
+            kept = world.__dict__.setdefault("_kept_features", {})
+            key = _json.dumps(op["feature"], sort_keys=True)
+            if key in kept:
+                f = kept[key]     # a feature bound once and kept by the caller (across re-simulations)
+                stats.probe("kept_feature_object")
+                if isinstance(f, torch.nn.Module):
+                    f.to(next(iter(d.underliers())).spot.dtype)
+            else:
+                f = get_feature(build_feature(op["feature"], world))
+                if isinstance(f, torch.nn.Module):
+                    f.to(next(iter(d.underliers())).spot.dtype)
+                f = f.of(d)
+                kept[key] = f
             prims = reachable_primaries(world, d, None)
             truth = truth_of(prims)
             t_star = min(op["t_star"], T - 1)
@@ -284,6 +294,7 @@ def _execute(program, stats, hist):
                 with torch.no_grad():
                     allA = f.get(None)
                     stepsA = [f.get(i) for i in range(t_star + 1)]
+                    later = [i for i in range(t_star + 1, T)]
             except Exception as e:
                 raise Violation(ID, "op_raised", "feature:%s:%s" % (fname, type(e).__name__), {"error": repr(e)}, seq)
             stats.fault("F1_future_corruption_offline")
@@ -291,7 +302,14 @@ def _execute(program, stats, hist):
             def f_run(fill):
                 corrupt_future(prims, t_star, fill, gen)
                 with torch.no_grad():
-                    return f.get(None), [f.get(i) for i in range(t_star + 1)]
+                    # steps after t* are asked FIRST (their values may be garbage): what a step <= t* returns afterwards
+                    # must not remember them
+                    for i in reversed(later):
+                        try:
+                            f.get(i)
+                        except Exception:
+                            pass
+                    return f.get(None), [f.get(i) for i in reversed(range(t_star + 1))][::-1]
 
             try:
                 allB, stepsB = f_run(op["fill"])
